@@ -1022,5 +1022,44 @@ func runC16OSWalk(c *Ctx) {
 			}
 		}
 	}
+	// an entry that vanishes between the listing and its lstat (the callback removes a later sibling
+	// while it visits an earlier one) and a callback that answers that error report with SkipDir /
+	// nil / an error: the remaining siblings are visited exactly as path/filepath visits them
+	for ai, answer := range []error{filepath.SkipDir, nil, plain} {
+		var logs [2]string
+		for side := 0; side < 2; side++ {
+			d2, _ := os.MkdirTemp("", "afc16v-")
+			for _, p := range []string{"d/a", "d/b", "d/c", "d/e/f", "g"} {
+				os.MkdirAll(filepath.Join(d2, filepath.Dir(p)), 0o755)
+				os.WriteFile(filepath.Join(d2, p), []byte(p), 0o644)
+			}
+			var vs []string
+			cb := func(p string, info os.FileInfo, err error) error {
+				rel := strings.TrimPrefix(p, d2)
+				if err != nil {
+					vs = append(vs, rel+":ERR")
+					return answer
+				}
+				vs = append(vs, rel)
+				if rel == "/d/a" {
+					os.Remove(filepath.Join(d2, "d/b"))
+				}
+				return nil
+			}
+			var werr error
+			if side == 0 {
+				werr = filepath.Walk(d2, cb)
+			} else {
+				werr = afero.Walk(osfs, d2, cb)
+			}
+			logs[side] = fmt.Sprintf("%s r=%v", strings.Join(vs, ","), werr == nil)
+			os.RemoveAll(d2)
+		}
+		n++
+		c.Count("oswalk.vanishing")
+		if logs[0] != logs[1] {
+			c.Oracle("FAIL oswv%d walk:os:vanished-sibling callback answers %v to the error report of a vanished entry: afero.Walk(OsFs) %s | filepath.Walk %s", ai, answer, logs[1], logs[0])
+		}
+	}
 	c.Extra["os_walk"] = fmt.Sprintf("%d walks of a temp dir with symbolic links (to a directory, to a file, dangling) by afero.Walk and Afero.Walk over OsFs and BasePathFs(OsFs), callbacks returning SkipDir / wrapped SkipDir / an error at visit k (oracle only)", n)
 }
